@@ -42,6 +42,7 @@ def run(ctx):
     d_v2(ctx)
     d_generated_action_gated(ctx)
     e_streaming_supported_v2(ctx)
+    C01.b_rail_lists_as_configured(ctx, rule="C02.a.lists-as-configured", kinds=("OutputRails",))
 
 
 def _create(s, name):
